@@ -209,8 +209,29 @@ def check(ctx, need):
                    'ws|read-err-after-data|%s' % ('would-block' if e is not None and 'WouldBlock' in show(e) else 'final'), loc=wr.loc())
         oks = [(b, show(e)) for b, e in prims.ret_variants(ww) if e[0] == 'agg' and e[2] == 'Ok']
         snd = ww.calls('tungstenite::WebSocket::send')
-        ok = len(snd) == 1 and show(snd[0].arg(1)) == 'Message::Binary{0: slice::to_vec(buf)}' and all(s == 'Result::Ok{0: slice::len(buf)}' and guarded_any(ww, b, [r'^WebSocket::send\(.*\) is Ok$']) for b, s in oks) and bool(oks)
-        ctx.ob(ok, 'write sends the whole buffer as one binary message and reports buf.len() only on success', 'ws|write', loc=ww.loc())
+        wq = ww.calls('tungstenite::WebSocket::write')
+        fl_ = ww.calls('tungstenite::WebSocket::flush')
+        # library contract (tungstenite 0.20 `WebSocket::write` documentation): a frame whose write fails on the transport stays queued and is
+        # completed by later write/flush calls; only WriteBufferFull hands the message back.  Hence: once `write` returned Ok or a transport
+        # would-block the message is accepted and must be reported as written; `send` (write + flush, reporting the flush's would-block) must not
+        # be used, because the caller retries after would-block and the bytes would go out twice (defect 15).
+        ctx.ob(not snd, 'the adapter does not use WebSocket::send, whose would-block result hides that the message is already queued', 'ws|write|no-send', loc=ww.loc())
+        ok = len(wq) == 1 and show(wq[0].arg(1)) == 'Message::Binary{0: slice::to_vec(buf)}' and bool(oks) and all(s == 'Result::Ok{0: slice::len(buf)}' for b, s in oks)
+        WOK = [r'^WebSocket::write\(.*\) is Ok$', r'^ws_stream::is_tungstenite_error_would_block\(\(?WebSocket::write\(.*\)\)?@Err\.0\)$']
+        ok = ok and all(guarded_any(ww, b, WOK) for b, s in oks)
+        ctx.ob(ok, 'write queues the whole buffer as one binary message and reports buf.len() only when the message was queued (write Ok, or the transport would block with the frame kept)', 'ws|write', loc=ww.loc())
+        errs_ = [b for b, e in prims.ret_variants(ww) if e[0] == 'agg' and e[2] == 'Err']
+        ctx.ob(bool(errs_) and all(guarded_any(ww, b, [r'^!ws_stream::is_tungstenite_error_would_block\(']) for b in errs_), 'write reports an error only for failures other than a transport would-block (a full websocket buffer is mapped to would-block: message not queued)', 'ws|write|errors', loc=ww.loc())
+        wbf = ctx.fn('ws_stream::map_tungstenite_error_to_io_error')
+        m_ = [(show(e), guard_strs(wbf, b)) for b, e in prims.ret_variants(wbf)]
+        # tungstenite 0.20.1 `enum Error` (external crate: variant names are not in the fact base): 0 ConnectionClosed, 1 AlreadyClosed, 2 Io, 3 Tls,
+        # 4 Capacity, 5 Protocol, 6 WriteBufferFull, 7 Utf8 … (transcribed from the pinned dependency's source)
+        ctx.ob(any('ErrorKind::WouldBlock' in x and any(g.endswith(' is WriteBufferFull') or g == 'discr(error) == 6' for g in gs) for x, gs in m_), 'a full websocket write buffer (message handed back, nothing queued) is what the caller sees as would-block', 'ws|write|buffer-full', loc=wbf.loc())
+        kw = ctx.fn('ws_stream::is_tungstenite_error_would_block')
+        kr_ = [(show(e), prims.guard_strs_plain(kw, b)) for b, e in prims.ret_variants(kw)]
+        ctx.ob(sorted(x for x, g in kr_) == ['False', 'PartialEq::eq(Error::kind(error@Io.0), ErrorKind::WouldBlock{})'] and
+               all((x == 'False') == (not any(y in ('discr(error) == 2', 'error is Io') for y in g)) for x, g in kr_),
+               'the would-block test is true only for a transport (Io) error of kind WouldBlock (%s)' % [x for x, g in kr_], 'ws|write|would-block-test', loc=kw.loc())
 
     # ------------------------------------------------------------ R-C13-4
     ctx.rule('R-C13-4', 'T1/T2 + impl facts', 'one result per submission: validation precedes the channel send; a failed send produces a result; a result sender dropped unsent resolves its receiver')
@@ -302,3 +323,33 @@ def check(ctx, need):
             cw = v.calls('tokio::conditional_wait')
             ok = len(hs) == 1 and len(cw) == 1 and 'MqttClientImpl::get_next_connected_service_time(client)' in show(cw[0].arg(0)) and any(re.search(r'is Some$', g) for g in guard_strs(v, hs[0].bb))
         ctx.ob(ok, '%s: handle_service runs only when the reported service time has arrived' % nm, 'svc|%s|gate' % nm, loc=v.loc())
+
+    # ---- added after the mutation sweep: an operation taken off the channel is always handed to the engine
+    ctx.rule('R-C13-7', 'T11 decision table', 'every Publish / Subscribe / Unsubscribe taken off the operation channel is handed to the protocol engine exactly once, as the user event of the same kind (so its result handler cannot be dropped silently)')
+    hio = find_one(F, 'client::MqttClientImpl::handle_incoming_operation')
+    oo = [k for k in F.adts if k.endswith('client::OperationOptions') or k == 'client::OperationOptions']
+    if hio is None or not oo:
+        ctx.ob(False, 'anchor: MqttClientImpl::handle_incoming_operation / OperationOptions', 'handoff|anchor')
+    else:
+        from .. import fdeval
+        from ..fdeval import V_enum
+        ev_ = fdeval.Evaluator(F, lambda c, view: c.endswith('ProtocolState::handle_user_event'))
+        for k_ in ('Publish', 'Subscribe', 'Unsubscribe'):
+            try:
+                paths_ = [p for p in ev_.run(hio, {'operation': V_enum(oo[0], k_, None)}) if not p.diverged]
+            except fdeval.Budget:
+                paths_ = []
+            outs = set()
+            for p in paths_:
+                outs.add(tuple((e[0].split('::')[-1], tuple(e[1])) for e in p.events))
+            ok = bool(outs) and all(len(o) == 1 and o[0][0] == 'handle_user_event' and re.search(r'event=%s\b|%s\(' % (k_, k_), ' '.join(o[0][1])) is not None for o in outs)
+            ctx.ob(ok, 'operation %s -> exactly one handle_user_event(%s) on every path (%s)' % (k_, k_, sorted(outs)[:2]), 'handoff|' + k_, loc=hio.loc())
+    # ---- added after seed C13-3b: close resolves everything the engine still holds
+    if hio is not None:
+        rc_ = hio.calls('ProtocolState::reset')
+        sh_ = prims.edge_nodes_matching(hio, [r' is Shutdown$'])
+        okc = bool(rc_) and bool(sh_)
+        for en_ in sh_:
+            seen_ = hio.reach([en_], avoid=[c.bb for c in rc_])
+            okc = okc and not any(x in seen_ for x in hio.exits())
+        ctx.ob(okc, 'close (Shutdown) resets the protocol engine on every path, in every client state, so operations it still holds are resolved with an error instead of waiting forever', 'handoff|close-resets', loc=hio.loc())
